@@ -433,6 +433,9 @@ func (m *Machine) strConcat(a, b StrVal) StrVal {
 func (m *Machine) strEq(a, b StrVal) *smt.Term {
 	if a.Abs != nil || b.Abs != nil {
 		if a.Abs == nil || b.Abs == nil {
+			if a.Len() != b.Len() {
+				return smt.False // the encoders' output length is a function of the input length
+			}
 			m.unsupported("comparison of an abstract encoded string with a plain string")
 		}
 		if a.Abs.Ctor != b.Abs.Ctor || len(a.Abs.Args) != len(b.Abs.Args) {
